@@ -299,3 +299,13 @@ Theorem C06_insertion_with_region_predecessor_column_sound :
       CTrace h (resolve_flat h) true n e ds -> CTrace ha (resolve_flat ha) true n e' ds.
 Proof. intros h ha new e0 preds cls. exact (ins_rl_col_sound_c h ha new e0 preds cls true). Qed.
 Print Assumptions C06_insertion_with_region_predecessor_column_sound.
+
+From V Require Import Model.InsCol.
+Theorem C06_single_successor_insertion_column_sound :
+  forall h ha lvl new e0 preds cls,
+    ins1_col_of h ha lvl new e0 preds cls = 1%Z ->
+    forall n e e' ds,
+      (exists b p, find h n = Some b /\ n_kind b = KOrig p) -> E Fn e e' ->
+      CTrace h (resolve_flat h) true n e ds -> CTrace ha (resolve_flat ha) true n e' ds.
+Proof. intros h ha lvl new e0 preds cls. exact (ins1_col_sound_c h ha lvl new e0 preds cls true). Qed.
+Print Assumptions C06_single_successor_insertion_column_sound.
